@@ -108,6 +108,7 @@ func vhC08SmallBuffers() {
 	switch vChoose("parser", 11) {
 	case 10:
 		// a bracketed host: arbitrary bytes in front of a dotted quad
+		vAssume(len(b) <= 3) // (these three kinds: at most 3 free bytes at either tier)
 		var u URI
 		host := append([]byte("["), b...)
 		host = append(host, "1.2.3.4]"...)
@@ -115,12 +116,14 @@ func vhC08SmallBuffers() {
 		vAssert("bracketed-host-returned", err != nil || len(u.Host()) > 0)
 	case 8:
 		// the multipart boundary parameter of an arbitrary Content-Type tail
+		vAssume(len(b) <= 3)
 		var h RequestHeader
 		h.SetContentTypeBytes(append([]byte("multipart/form-data; boundary="), b...))
 		bd := h.MultipartFormBoundary()
 		vAssert("boundary-bounded", len(bd) <= len(b))
 	case 9:
 		// …and a whole request with such a Content-Type and a body, through the reader
+		vAssume(len(b) <= 3)
 		req := append([]byte("POST / HTTP/1.1\r\nHost: a\r\nContent-Length: 2\r\nContent-Type: multipart/form-data; boundary="), b...)
 		req = append(req, "\r\n\r\nxy"...)
 		var r Request
